@@ -368,8 +368,14 @@ class Interp:
                 if r == z3.unsat:
                     break
                 if r != z3.sat:
-                    # undecided: every remaining constructor is considered possible
-                    return sorted(set(tags) | {k for k in range(len(vals.CTOR_NAMES)) if k not in tags})
+                    # no model available (quantifiers): decide each remaining constructor separately;
+                    # only a proved exclusion prunes
+                    rest = [k for k in range(len(vals.CTOR_NAMES)) if k not in tags]
+                    self.solver.pop()
+                    try:
+                        return sorted(set(tags) | {k for k in rest if self.feasible(Val.recognizer(k)(t))})
+                    finally:
+                        self.solver.push()
                 mv = self.solver.model().eval(t, model_completion=True)
                 k = vals.CTOR_INDEX[mv.decl().name()]
                 tags.append(k)
@@ -432,9 +438,9 @@ class Interp:
             return None
         if ty in self.world.classes or ty.startswith('callable:'):
             return vals.CTOR_INDEX['ObjV']
-        head = ty.split(':', 1)[0].split('|', 1)[0]
+        head = ty.split(':', 1)[0].split('|', 1)[0].split('[', 1)[0]
         m = {'dict': 'DictV', 'enumdict': 'DictV', 'list': 'ListV', 'tuple': 'TupleV', 'ImmutableDict': 'DictV',
-             'str': 'StrV', 'int': 'IntV', 'bool': 'BoolV', 'bytes': 'BytesV'}
+             'str': 'StrV', 'int': 'IntV', 'bool': 'BoolV', 'bytes': 'BytesV', 'set': 'SetV'}
         if head in m:
             return vals.CTOR_INDEX[m[head]]
         return None
@@ -617,6 +623,10 @@ class Interp:
             if newobj is not None:
                 # value-semantics containers: write the updated container back
                 self.assign(_store_target(tgt.value), newobj)
+                if isinstance(obj, SV) and obj.src is not None and obj.src is not tgt.value \
+                        and isinstance(tgt.value, ast.Name):
+                    # the container was taken out of another slot: that slot sees the mutation too
+                    self.assign(obj.src, SV(newobj.t, newobj.ty, None))
         else:
             raise Unsupported(f'assignment target {type(tgt).__name__}@{tgt.lineno}')
 
@@ -1050,7 +1060,11 @@ class Interp:
                 raise Unsupported('slice step')
             return self.world.ops.getslice(self, obj, lo, hi)
         idx = self.ev(e.slice)
-        return self.world.ops.getitem(self, obj, idx)
+        r = self.world.ops.getitem(self, obj, idx)
+        if isinstance(r, SV) and r.src is None and self.mode == 'code':
+            # a mutable container taken out of another container stays an alias of that slot
+            r = SV(r.t, r.ty, e)
+        return r
 
     def ex_Call(self, e):
         return self.world.calls.call_expr(self, e)
@@ -1121,6 +1135,9 @@ def explore(interp, run, max_paths=4000):
             res = run(interp)
             results.append(res)
         except PathEnd:
-            pass
+            # a path that stops early (assumption false, loop iteration checked) still carries the
+            # obligations generated before it stopped - e.g. invariant preservation
+            if interp.obligations:
+                results.append(('end', list(interp.obligations), interp.pathname()))
         work.extend(path.alternatives)
     return results
